@@ -345,6 +345,46 @@ def main():
             if kind == "config":
                 ev["ctx_after"] = [decimal.getcontext().prec, decimal.getcontext().rounding]
                 decimal.getcontext().prec, decimal.getcontext().rounding = saved
+        elif kind == "depth":
+            # stack exhaustion is ambient too: at every distance from the recursion limit a call either gives its result or raises
+            # RecursionError - it never returns something else silently
+            import inspect
+            ev["steps"] = []
+            old_limit = sys.getrecursionlimit()
+            base = len(inspect.stack())
+            cap = Capture()
+            for st in it["steps"]:
+                # only the library call itself runs under the lowered limit; describing its result needs stack of its own
+                if st[0] == "text":
+                    arg = unesc(st[1])
+                    call = lambda: parse_cvss_from_text(arg)  # noqa
+                    describe = lambda res: dig(sorted([type(r).__name__, r.vector, r.clean_vector()] for r in res))  # noqa
+                    label = "text:%s" % st[1]
+                else:
+                    ver_, arg = st[1], unesc(st[2])
+                    call = (lambda: CLS[ver_].from_rh_vector(arg)) if st[0] == "fromrh" else (lambda: CLS[ver_](arg))  # noqa
+                    describe = lambda obj: dig(observe(obj, ver_))  # noqa
+                    label = "%s:%s:%s" % (st[0], st[1], st[2])
+                try:
+                    call()          # once with the whole stack: lazily built caches of the interpreter (compiled patterns) are warm afterwards
+                except Exception:  # noqa
+                    pass
+                for k in it["margins"]:
+                    saved_out = sys.stdout, sys.stderr
+                    sys.stdout = sys.stderr = cap
+                    raw, exc = None, "-"
+                    try:
+                        try:
+                            sys.setrecursionlimit(base + 2 + k)
+                            raw = call()
+                        except Exception as e:  # noqa
+                            exc = type(e).__name__
+                        finally:
+                            sys.setrecursionlimit(old_limit)
+                    finally:
+                        sys.stdout, sys.stderr = saved_out
+                    res = "raised" if exc != "-" else describe(raw)
+                    ev["steps"].append({"label": label + "@margin%d" % k, "res": res, "exc": exc, "g": globals_digest(), "out": 0, "proj0": "-", "proj": "-", "on": [], "margin": k})
         elif kind == "reference":
             ev["steps"] = []
             for st in it["steps"]:          # each entry is a list of steps run in one fresh interpreter
